@@ -16,6 +16,7 @@ mod ops_poly;
 mod ops_relate;
 mod ops_segseg;
 mod ops_simplify;
+mod ops_sweep;
 mod ops_sphere;
 mod ops_tiling;
 mod ops_traversal;
@@ -95,6 +96,7 @@ fn dispatch_case(cx: &mut Ctx, n: u64, case: &Value) {
         "kernel" => ops_kernel::kernel_case(cx, n, case),
         "hull" => ops_hull::hull_case(cx, n, case),
         "simplify" => ops_simplify::simplify_case(cx, n, case),
+        "sweep" => ops_sweep::sweep_case(cx, n, case),
         "valid" => ops_valid::valid_case(cx, n, case),
         "linemeasure" => ops_linemeasure::linemeasure_case(cx, n, case),
         "traversal" => ops_traversal::traversal_case(cx, n, case),
